@@ -421,3 +421,75 @@ theorem C03_group_test (keys keysF : List Key) (c fc : List Nat)
       simp only [List.cons_beq_cons, Option.some_beq_some]
 
 end PydraModel.WfState
+
+namespace PydraModel.WfState
+open Model
+
+/-- Fan-in from disjoint origins, node level (restated as `C03_fanin_disjoint` in Props/C03.lean). -/
+theorem fanin_disjoint (name : Name) (ups : List (List (Key × Nat))) (fs : List Fld)
+    (ownAxes : List (Key × Nat)) (own : Option (List (List Nat) × List Key))
+    (hlen : fs.length = ups.length) (hfs : fs.Nodup)
+    (hdisj : ((ups.map (·.map (·.1))).flatten ++ ownAxes.map (·.1)).Nodup)
+    (hown : ownLen own = prodL (ownAxes.map (·.2)))
+    (hk : ∀ e k, own = some (e, k) → ∀ f ∈ fs, (name, f) ∉ k)
+    (j : Nat) (hj : j < prodL ((ups.flatten ++ ownAxes).map (·.2))) (m : Nat) (hm : m < ups.length) :
+    ((inputsIndOf name (List.zipWith (fun a f => (prodL (a.map (·.2)), [f])) ups fs) own)[j]?).bind
+        (fun d => d.get? (name, fs[m]'(hlen ▸ hm)))
+      = ((rowMajor ((ups.flatten ++ ownAxes).map (·.2)))[j]?).map fun c =>
+          encode (ups[m].map (·.2)) (ups[m].map fun a => Spec.coordOf ((ups.flatten ++ ownAxes).map (·.1)) c a.1) := by
+  -- notation
+  let ss : List (List Nat) := ups.map (·.map (·.2))
+  let kss : List (List Key) := ups.map (·.map (·.1))
+  let oS : List Nat := ownAxes.map (·.2)
+  have hsizes : (ups.flatten ++ ownAxes).map (·.2) = ss.flatten ++ oS := by
+    simp [ss, oS, List.map_append, List.map_flatten]
+  have hkeys : (ups.flatten ++ ownAxes).map (·.1) = kss.flatten ++ ownAxes.map (·.1) := by
+    simp [kss, List.map_append, List.map_flatten]
+  have hlens : kss.map List.length = ss.map List.length := by
+    simp [kss, ss, List.map_map, Function.comp_def]
+  have hj' : j < prodL (ss.flatten ++ oS) := by rw [← hsizes]; exact hj
+  have hjm : j < prodL (ss.map prodL) * ownLen own := by
+    rw [hown, prodL_flatten, ← prodL_append]; exact hj'
+  have hpos : 0 < prodL oS := by
+    rcases Nat.eq_zero_or_pos (prodL oS) with h0 | h0
+    · rw [prodL_append, h0] at hj'; simp at hj'
+    · exact h0
+  have hq : j / prodL oS < prodL ss.flatten :=
+    Nat.div_lt_of_lt_mul (by rw [Nat.mul_comm, ← prodL_append]; exact hj')
+  -- model side
+  have hz : List.zipWith (fun a f => (prodL (a.map (·.2)), [f])) ups fs
+          = List.zipWith (fun n f => (n, [f])) (ss.map prodL) fs := by
+    simp [ss, List.zipWith_map_left, List.map_map]
+  have hmf : m < fs.length := hlen ▸ hm
+  have hlen' : fs.length = (ss.map prodL).length := by simp [ss, hlen]
+  rw [hz, inputsIndOf_single_get name (ss.map prodL) fs hlen' hfs own hk j hjm m hmf]
+  -- spec side
+  rw [hsizes, rowMajor_getElem? _ j hj', Option.map_some, hkeys]
+  congr 1
+  have hcl : (decode (ss.flatten ++ oS) j).length = (kss.flatten ++ ownAxes.map (·.1)).length := by
+    rw [decode_length]
+    simp [kss, ss, oS, List.length_flatten, List.map_map, Function.comp_def]
+  have hkm : m < kss.length := by simpa [kss] using hm
+  have hblock := coordOf_block kss (ownAxes.map (·.1)) (decode (ss.flatten ++ oS) j) hcl hdisj m hkm
+  have e1 : (ups[m].map fun a => Spec.coordOf (kss.flatten ++ ownAxes.map (·.1)) (decode (ss.flatten ++ oS) j) a.1)
+          = kss[m].map (Spec.coordOf (kss.flatten ++ ownAxes.map (·.1)) (decode (ss.flatten ++ oS) j)) := by
+    simp [kss, List.map_map, Function.comp_def]
+  rw [e1, hblock, hlens, decode_append _ _ _ hj']
+  rw [splitBlocks_append _ _ _ (by rw [decode_length, List.length_flatten]; exact Nat.le_refl _)]
+  -- the mixed-radix theorem
+  have hr := decode_blocks ss (j / prodL oS) hq
+  have hml : m < (List.zipWith encode ss (splitBlocks (ss.map List.length) (decode ss.flatten (j / prodL oS)))).length := by
+    rw [hr, decode_length]; simp [ss]; exact hm
+  have hsb : m < (splitBlocks (ss.map List.length) (decode ss.flatten (j / prodL oS))).length := by
+    rw [List.length_zipWith] at hml; omega
+  have := congrArg (fun l => l[m]?) hr
+  simp only [List.getElem?_eq_getElem hml, List.getElem_zipWith] at this
+  rw [List.getElem?_eq_getElem (by rw [decode_length]; simp [ss]; exact hm)] at this
+  have h3 := Option.some.inj this
+  rw [List.getD_eq_getElem?_getD, List.getElem?_eq_getElem hsb, Option.getD_some]
+  have hs : ss[m]'(by simp [ss]; exact hm) = ups[m].map (·.2) := by simp [ss]
+  rw [hs] at h3
+  rw [h3, hown]
+
+
+end PydraModel.WfState
